@@ -1489,6 +1489,12 @@ def canon(e, keep_casts=True, _d=0, labels=None):
             return canon(e[2][0], keep_casts, d)
         if m == 'index' and len(e[2]) == 2:
             return '%s[%s]' % (canon(e[2][0], keep_casts, d), canon(e[2][1], keep_casts, d))
+        # equivalent spellings of a floored subtraction on unsigned integers
+        if m in ('unwrap_or_default', 'unwrap_or') and e[2]:
+            inner = peel(e[2][0], calls=False)
+            if inner[0] == 'call' and method_name(inner[1]) == 'checked_sub' and len(inner[2]) == 2 and \
+                    (m == 'unwrap_or_default' or (len(e[2]) == 2 and int_value(e[2][1]) == 0)):
+                return 'saturating_sub(%s, %s)' % (canon(inner[2][0], keep_casts, d), canon(inner[2][1], keep_casts, d))
         return '%s(%s)' % (m, ', '.join(canon(a, keep_casts, d) for a in e[2]))
     if k == 'bin':
         op = _OPS.get(e[1], e[1])
